@@ -7,7 +7,7 @@ Every worker owns a scratch git worktree of /repo's HEAD and a copy of the harne
 (all under /tmp/h2t-mut, removed at the end); /repo itself is never touched.  A mutant is
   - invalid    if it does not compile,
   - killed_by_tests if `cargo test` (default features) or `cargo test --features css` fails,
-  - detected   if some property's quick stream reports whole-observation drift, a projection disagreement or an oracle
+  - detected   if some property's quick stream (tried in the order CORR, C01..C20; the first report ends the search) reports whole-observation drift, a projection disagreement or an oracle
                violation that is not a known finding (the baseline reports none),
   - survived   otherwise (listed with its diff: an equivalent mutant, or a gap)."""
 import json, os, random, re, shutil, subprocess, sys, time
@@ -16,7 +16,7 @@ from multiprocessing import Pool
 ROOT = os.path.dirname(os.path.dirname(os.path.abspath(__file__)))
 SCR = "/tmp/h2t-mut"
 FILES = ["src/render/text_renderer.rs", "src/lib.rs", "src/css.rs", "src/css/parser.rs"]
-PROPS = ["C%02d" % i for i in range(1, 21)] + ["CORR"]
+PROPS = ["CORR"] + ["C%02d" % i for i in range(1, 21)]   # CORR first: the general correspondence stream catches most
 ENV = dict(os.environ, CARGO_NET_OFFLINE="true")
 
 OPS = [  # (regex, replacement) applied to one match on one line
@@ -120,8 +120,10 @@ def run_one(args):
             n = (d["whole_observation_drift"], d["projection_disagreements"], d["oracle_violations"])
             if sum(n) > 0:
                 hits[p] = n
+                break   # one report is enough: detected
         except Exception:
             hits[p] = "no-result"
+            break
     shutil.rmtree("%s/rep%d" % (SCR, w), ignore_errors=True)
     res["status"] = "detected" if hits else "survived"
     res["detected_by"] = hits
